@@ -412,3 +412,5 @@ ASSUMED_MODELS = ["zipfile.ZipFile (constructor, infolist, close, context manage
 ASSUMPTIONS = ["PY-INT", "PY-FLOAT-REAL: size ratios compared over the reals", "PY-EXC / EXC-ANY for library calls",
                "ZipInfo sizes are non-negative integers", "configured total-size limit is non-negative",
                "policy obligations (zipfile constructor sites, validate-before-read) are decided by AST dominance analysis (back end 'dataflow')"]
+
+REPLAY_UNKNOWN = True    # undecided / out-of-subset items are searched natively (replay) before being reported UNDECIDED
